@@ -255,19 +255,19 @@ def build_harness_race():
     return exe, out
 
 
-def run_stress(exe, seed, ms, outdir, runs=4):
-    """Runs TestStress `runs` times in parallel (different seeds); returns [(rc, logfile)]."""
+def run_stress(exe, seed, ms, outdir, runs=4, test="TestStress"):
+    """Runs the stress test `runs` times in parallel (different seeds); returns [(rc, logfile)]."""
     os.makedirs(outdir, exist_ok=True)
 
     def work(k):
         env = dict(GOENV, VERIF_OUT=outdir, VERIF_SEED=str(seed + k), VERIF_STRESS_MS=str(ms), GORACE="halt_on_error=0")
         try:
-            p = subprocess.run([exe, "-test.run", "^TestStress$", "-test.timeout", "600s"], env=env,
+            p = subprocess.run([exe, "-test.run", "^%s$" % test, "-test.timeout", "600s"], env=env,
                                stdout=subprocess.PIPE, stderr=subprocess.STDOUT, text=True, timeout=900)
             rc, out = p.returncode, p.stdout
         except subprocess.TimeoutExpired as e:
             rc, out = 124, (e.stdout or "") + "\nTIMEOUT (deadlock under concurrent use?)"
-        log = os.path.join(outdir, "stress-%d.log" % (seed + k))
+        log = os.path.join(outdir, "%s-%d.log" % ("stress" if test == "TestStress" else "stressf", seed + k))
         open(log, "w").write("# seed %d ms %d\n" % (seed + k, ms) + out)
         return rc, log
 
